@@ -212,6 +212,16 @@ func ruleCmd(c *Ctx) {
 					return
 				}
 				verdict, why := false, "the error is never tested"
+				// a function other than main that hands the call's error back as its own
+				if fn != mainFn {
+					for _, e := range errs {
+						for _, r := range *e.Referrers() {
+							if ret, isRet := r.(*ssa.Return); isRet && len(ret.Results) > 0 && ret.Results[len(ret.Results)-1] == e {
+								verdict, why = true, "the function returns the error to its caller as it is"
+							}
+						}
+					}
+				}
 				// handed straight to a helper of the command that exits when it is set
 				for _, e := range errs {
 					for _, r := range *e.Referrers() {
@@ -821,7 +831,24 @@ func ruleCmd(c *Ctx) {
 		// (vii) one file per -p value: the name handed to ReadFile in iteration i is value i of the
 		// flag field (tagged short:"p") of the parsed options — not an element of a list derived
 		// from it (a filtered, expanded or de-duplicated list silently drops or repeats files)
+		reachMain := map[*ssa.Function]bool{mainFn: true}
+		for changed := true; changed; {
+			changed = false
+			for fn := range reachMain {
+				allInstrs(fn, func(i ssa.Instruction) {
+					if ci, ok := i.(ssa.CallInstruction); ok {
+						if g := ci.Common().StaticCallee(); g != nil && g.Pkg == mainFn.Pkg && !reachMain[g] {
+							reachMain[g] = true
+							changed = true
+						}
+					}
+				})
+			}
+		}
 		for _, fn := range fns {
+			if !reachMain[fn] {
+				continue // nothing the command runs: a method nobody calls reads no -p value
+			}
 			allInstrs(fn, func(i ssa.Instruction) {
 				call, ok := i.(*ssa.Call)
 				if !ok {
